@@ -424,6 +424,21 @@ static void case_roundtrip(KeyEnt &K, Rng &r, KeyEnt *K2) {
 			eval_enc(E, E.ct, "-", "-"); four_root_check(E); count("enc_roundtrips");
 			if (K2 && i < 3) { eval_enc(E, E.ct, "-", "other key", K2); std::vector<std::string> f = E.f; f[1] = K2->kid; eval_enc(E, join(f, '|'), "keyid", "other key, key id rewritten", K2); }
 		}
+		// bulk round trips (plain oracle decrypt(encrypt(x)) == x only): the padding randomness r is drawn inside encrypt(), so value
+		// classes of the padded block that occur with probability 2^-8 (a leading zero octet: a root shorter than the modulus) are
+		// reached by count — 1200 draws miss such a class with probability e^-4.7 per key, 8 keys per run
+		size_t nbulk = quick ? 1200 : 6000;
+		for (size_t i = 0; i < nbulk; i++) {
+			unsigned char x[TMCG_SAEP_S0], o[TMCG_SAEP_S0]; r.fill(x, sizeof x);
+			std::string ct = (i & 1) ? K.sk->encrypt(x) : K.pk->encrypt(x);
+			memset(o, 0xA5, sizeof o);
+			int acc = accepted([&] { return K.sk->decrypt(o, ct); }); count("enc_bulk_roundtrips");
+			if (!acc || memcmp(o, x, sizeof x)) {
+				violation(acc ? "C10/enc/wrong-plaintext" : "C10/enc/honest-ciphertext-refused", acc ? "decrypt returned bytes different from the encrypted value" : "decrypt(encrypt(x)) returned false",
+				          J().kv("key_bits", (long long)K.spec.bits).kv("x", hex(x, sizeof x)).kv("ciphertext", ct).kv("bulk_index", (long long)i).str());
+				break;
+			}
+		}
 	}
 }
 
